@@ -18,19 +18,27 @@ T={
 'C11':(E2,"every legal non-terminal position of the complete KQK and KRK families searched by the real search; each mate announcement judged against exact retrograde distance-to-mate tables built over the rules oracle","complete family enumeration against retrograde (backward-reachability) tables","4 C11"),
 'C12':(E2,"KQK/KRK families on a stride, all short histories from low-material roots, repetition histories: iterations 1..3 of the real search compared move by move with plain negamax over the engine's own generator and evaluation","bounded exhaustive enumeration of roots/histories against a reference minimax","4 C12"),
 'C18':(E2,"every info line of every run of the expiry sweep (all roots, all expiry indices): grammar, bounds, first PV move legal and equal to the move handed back, monotone depth, increasing scores","exhaustive enumeration of clock-expiry points; every emitted line checked","4 C18"),
+'C03':(E3,"conjunction of (a) every successor of every explored state printed by the real printer, (b) every clock-expiry index of the search hands back only root successors, (c)(d) go parameter sequences and sequences of go commands as sessions of the real binary with the oracle replaying each answer, (e) all interleavings of the real I/O thread and search thread under loom for every expiry index","loom exploration of the real two-thread hand-off x exhaustive expiry indices, plus explicit-state and session enumeration","4 C03"),
+'C08':(E3,"all interleavings (loom) x every expiry index on non-terminal, checkmated and stalemated roots, one and two go commands: exactly one bestmove per go, null move on a finished game, no livelock, bounded unwinding; sessions of the real binary stay responsive; wall-clock smoke run","loom exploration of the real hand-off with a livelock horizon + session enumeration","4 C08"),
+'C16':(E4,"BFS over the UCI session state graph (state = dumped loop locals, transition = one command executed by the real binary in a fresh process); every probe after every state compared with a fresh engine; raw prefixes cross-check the dedup","explicit-state BFS of the session state machine on the real binary, differential against a fresh engine","4 C16"),
+'C17':(E4,"every unknown/garbage line inserted at every position of every short session of well-formed commands: no output, state unchanged, readyok; quit and end-of-input after every session must end the process","exhaustive enumeration of bounded sessions with fault (garbage / end-of-input) injection at every point","4 C17"),
 }
 NOTE={
 E1:"trusted: the rules oracle (self-tested against 40 published perft totals on every run), 128-bit state fingerprints; bounds: depth limits per root and the listed families, not all positions",
 E2:"trusted: the virtual clock seam (hook H2), the rules oracle, the reference search / retrograde tables in the harness; bounds: the root set and iteration depths stated in the evidence",
+E3:"trusted: loom's exploration of the shim's scheduling points (own mpsc over loom Mutex, clock as loom atomic, spawn/join, yield in the polling loop), preemption bound 2/3 (unbounded for small expiry indices); the shim is conformance-checked against free-running std threads of the real binary",
+E4:"trusted: the hook that dumps the loop's two mutable locals and the environment-driven virtual clock; sessions bounded in length and alphabet as stated; hooks-on vs hooks-off binaries are compared on a sample of sessions every run",
 E5:"trusted: the reference arithmetic / rules oracle in the harness; bounds: the stated enumeration limits (piece counts, string length, grid), argued in DESIGN.md §6",
 }
 m={
  "version":1,
  "setup_cmd":"bin/setup",
- "hooks":{"guard":"cargo feature `verif` (and `verif_loom`, which implies it)","enable":"harness crates #[path]-include /repo/src/*.rs with feature verif on; the real binary is built with `cargo build --features verif`","baseline_off_cmd":"cd /repo && cargo test --workspace --no-fail-fast --offline","source_commits":["ae82532"],"add_only":True},
+ "hooks":{"guard":"cargo feature `verif` (and `verif_loom`, which implies it)","enable":"harness crates #[path]-include /repo/src/*.rs with feature verif on; the real binary is built with `cargo build --features verif`","baseline_off_cmd":"cd /repo && cargo test --workspace --no-fail-fast --offline","source_commits":["ae82532","61c4624"],"add_only":True},
  "engines":[
   {"name":E1,"path":"harness/src/e1_posgraph.rs","serves_properties":["C01","C02","C03","C04","C05","C13"],"kind_free_text":"explicit-state BFS over chess positions; transition function = the engine's real generate_moves; oracle = independent rules model (harness/src/rules.rs)"},
   {"name":E2,"path":"harness/src/e2_clockpoints.rs","serves_properties":["C03","C07","C10","C11","C12","C18"],"kind_free_text":"runs the real get_best_move on the calling thread under a virtual clock for every expiry index; reference search and retrograde tables as oracles"},
+  {"name":E3,"path":"harness-loom/src/main.rs","serves_properties":["C03","C07","C08","C09"],"kind_free_text":"loom model of the real find_and_play_best_move + get_best_move threads; one process per (root, expiry vector, preemption bound)"},
+  {"name":E4,"path":"harness/src/e4_session.rs","serves_properties":["C03","C08","C10","C15","C16","C17"],"kind_free_text":"BFS / bounded enumeration of UCI sessions, each executed by a fresh process of the real binary (hooks on: virtual clock + state dump; hooks off for conformance and lifecycle)"},
   {"name":E5,"path":"harness/src/e5_pure.rs","serves_properties":["C06","C09","C14","C15"],"kind_free_text":"complete nested-loop enumeration of bounded input spaces for pure functions"},
  ],
  "checks":[],
